@@ -402,6 +402,7 @@ func scenarioC12(r *Run) {
 	nmsg := 1 + c.Pick(12, "messages")
 	var kinds []string
 	injected := 0
+	filled := false
 	hostile := 0
 	pol := &NetPolicy{Whole: true}
 	pol.DgramHook = func(seq int) bool {
@@ -458,6 +459,58 @@ func scenarioC12(r *Run) {
 		if side == "server" && injected < nmsg {
 			evs = append(evs, Ev{Kind: "fault:inject", Desc: "inject a generated query", key: "i", Do: func() {
 				injected++
+				if !filled && c.Chance(1, 20, "fill-user-table") {
+					// a resource limit: the session table (1296 slots) is filled by version requests from as
+					// many foreign addresses; the established session must not notice
+					filled = true
+					vname := ""
+					for _, n := range captured {
+						if len(n) > 0 && (n[0] == 'v' || n[0] == 'V') {
+							vname = n
+							break
+						}
+					}
+					if vname != "" {
+						q := new(mdns.Msg)
+						q.RecursionDesired = true
+						q.Question = []mdns.Question{{Name: vname, Qtype: 10, Qclass: mdns.ClassINET}}
+						var b4, aft runtime.MemStats
+						synctest.Wait()
+						runtime.ReadMemStats(&b4)
+						for k := 0; k < 1320; k++ {
+							q.Id = uint16(k + 1)
+							data, err := q.Pack()
+							if err != nil {
+								break
+							}
+							from := &net.UDPAddr{IP: net.IPv4(10, 7, byte(k/250), byte(1+k%250)), Port: 5000 + k%100}
+							r.Net.Inject("udp", from, &net.UDPAddr{IP: net.ParseIP(ServerIP), Port: 5353}, data)
+							if k%64 == 63 {
+								synctest.Wait()
+								for _, fd := range r.Net.Flight() {
+									if strings.HasPrefix(fd.To, "10.7.") {
+										r.Net.TakeDgram(fd.Seq) // answers to nobody
+									}
+								}
+							}
+						}
+						synctest.Wait()
+						for _, fd := range r.Net.Flight() {
+							if strings.HasPrefix(fd.To, "10.7.") {
+								r.Net.TakeDgram(fd.Seq)
+							}
+						}
+						runtime.ReadMemStats(&aft)
+						kinds = append(kinds, "user-table-filled")
+						r.Count("user_table_fills")
+						r.AddShape("q:fill")
+						r.Logf("1320 version requests from as many addresses (session table full)")
+						if delta := aft.TotalAlloc - b4.TotalAlloc; delta > 512<<20 {
+							r.FailSig("unbounded-allocation", "kind=user-table-filled", "1320 version requests made the server allocate %d bytes", delta)
+						}
+						return
+					}
+				}
 				name, kind := genQueryName(c, uid, captured)
 				q := new(mdns.Msg)
 				q.Id = uint16(c.Pick(65536, "id"))
